@@ -25,7 +25,7 @@ Obs(prev, chg) ==       \* chg[i] = <<cell index, value>>
                      THEN chg[CHOOSE i \in 1..Len(chg) : CellOrder[chg[i][1]] = c][2] ELSE prev[c]]
 
 \* operations whose outcome (ok / which error) the property leaves open; their effect on values is still demanded
-OpenOutcome(op) == op \in {"erase", "dim", "clear", "nop"}
+OpenOutcome(op) == op \in {"erase", "dim", "clear", "nop", "swap"}
 
 Judge(s0, e) ==
     LET d     == Do(s0.ref, e)
